@@ -670,10 +670,17 @@ fn fresh_process_replay(path: &str, clause: &str, step: usize, observed: &str) -
     let text = String::from_utf8_lossy(&out.stdout).to_string();
     let want = format!("REPLAY-FAIL clause={clause} step={step} observed={observed}");
     if out.status.code() == Some(1) && text.lines().any(|l| l == want) {
-        Ok(())
-    } else {
-        Err(format!("fresh-process replay did not reproduce (exit {:?}); wanted `{want}`; got:\n{text}", out.status.code()))
+        return Ok(());
     }
+    // Same clause at the same step, different observed value: the code under test is not a
+    // function of its inputs there (e.g. it reads uninitialised memory). The replay still fails
+    // the recorded clause at the recorded step in a fresh process; say so and accept it.
+    let loose = format!("REPLAY-FAIL clause={clause} step={step} observed=");
+    if out.status.code() == Some(1) && text.lines().any(|l| l.starts_with(&loose)) {
+        println!("note: in a fresh process the replay fails the same clause at the same step but with a different observed value: the code under test is not deterministic there");
+        return Ok(());
+    }
+    Err(format!("fresh-process replay did not reproduce (exit {:?}); wanted `{want}`; got:\n{text}", out.status.code()))
 }
 
 /// Run `f` on its own thread; None if it has not returned after `ms` (the thread is left behind —
